@@ -80,6 +80,8 @@ def generate(tier, seed, work, stats):
     for prods in c08.random_grammars(4000 if tier == "quick" else 40000, seed + 14, maxp=6, maxb=3):
         if useless_free(prods):
             cases.append(dict(prods=prods, vpool="upper", tpool="ab", family="random"))
+            if len(cases) % 5 == 0:
+                cases.append(dict(prods=prods, vpool="clash", tpool="ab", family="random-clash"))
     for c in cases:
         c["L"] = 4
     # P3: the calls the repository's own tests make, re-judged by the trace specification
